@@ -128,7 +128,7 @@ extern "C" void vf_resumes32(ForthMachineOf<int32_t, int32_t>* vm, int64_t n) { 
 extern "C" void vf_resumes64(ForthMachineOf<int64_t, int32_t>* vm, int64_t n) { for (int64_t k = 0; k < n; k++) { if (vm->is_done() || vm->current_error_ != util::ForthError::none) break; vm->resume(); } }
 '''
 
-MAXDEPTH, RECDEPTH = 8, 6
+MAXDEPTH, RECDEPTH, OUTCAP = 8, 6, 12
 
 
 def wrap_module():
@@ -208,14 +208,35 @@ def build_machine(T, dump, stack_cells, inbytes=None, tag=''):
         ins_ = m.array('inputs', ('ptr', 64), 2 * nin, arr=parr, const=True)
         for k, c in enumerate(_vec(ins_, 2 * nin)):
             cells[off['current_inputs_'] + 8 * k] = c
+    # outputs: real ForthOutputBufferOf<T> objects (vtable from ForthOutputBuffer.cpp), empty, with room for OUTCAP items (no reallocation)
+    DT = {4: ('i', 32, 'i'), 5: ('l', 64, 'l'), 6: ('h', 8, 'h'), 2: ('a', 8, 'a'), 3: ('s', 16, 's'), 8: ('j', 32, 'j'), 9: ('m', 64, 'm'), 7: ('t', 16, 't')}
+    nout = dump['noutputs']
+    if nout:
+        parr = []
+        st0 = State({}, m.mem, z3.BoolVal(True))
+        for k, dt in enumerate(dump['dtypes']):
+            if dt not in DT:
+                raise Unsupported('output dtype %d is outside the program harness (integer outputs only)' % dt)
+            mang, bits, _ = DT[dt]
+            vt = m.eng.global_ptr(st0, '@_ZTVN7awkward19ForthOutputBufferOfI%sEE' % mang, module_of(FOB))
+            m.array('outbuf%d' % k, ('i', bits), OUTCAP, arr=z3.K(z3.BitVecSort(64), BVc(0, bits)))
+            m.record('ob%d' % k, {0: (Ptr(vt.obj, 16), 8), 8: i64(0), 16: i64(OUTCAP), 24: (z3.FPVal(1.5, z3.Float64()), 8), 32: (Ptr('outbuf%d' % k, BVc(0)), 8), 40: (NULL, 8)})
+            parr += [Ptr('ob%d' % k, 0), NULL]
+        outs_ = m.array('outputs', ('ptr', 64), 2 * nout, arr=parr, const=True)
+        for k, c in enumerate(_vec(outs_, 2 * nout)):
+            cells[off['current_outputs_'] + 8 * k] = c
     this = m.record('vm', cells)
     return m, this, off
 
 
-def final_state(m, off, T, nvars, nin):
+def final_state(m, off, T, nvars, nin, nout=0):
     g = lambda name: m.cell('vm', off[name])
     st = m.mem.o['stack'].arr
-    return dict(err=g('current_error_'), depth=g('stack_depth_'), rec=g('recursion_current_depth_'),
+    outs = []
+    for k in range(nout):
+        arr = m.mem.o['outbuf%d' % k].arr
+        outs.append(dict(len=m.cell('ob%d' % k, 8), cells=[z3.Select(arr, z3.BitVecVal(i, 64)) for i in range(OUTCAP)]))
+    return dict(outs=outs, err=g('current_error_'), depth=g('stack_depth_'), rec=g('recursion_current_depth_'),
                 cells=[z3.Select(st, z3.BitVecVal(k, 64)) for k in range(MAXDEPTH)],
                 vars=[z3.Select(m.mem.o['vars'].arr, z3.BitVecVal(k, 64)) for k in range(nvars)],
                 inpos=[m.cell('ib%d' % k, 32) for k in range(nin)])
@@ -229,7 +250,7 @@ def run_mode(T, src, mode, stack_cells, inbytes, nsteps, pre=()):
     m.assume(*pre)          # before the run: loop trip counts are bounded by the precondition, not by the unwinding bound
     fn = {'run': 'vf_resumes%d', 'step': 'vf_steps%d'}[mode] % T
     m.call(fn, [this, z3.BitVecVal(nsteps, 64)])
-    fs = final_state(m, off, T, dump['nvars'], dump['ninputs'])
+    fs = final_state(m, off, T, dump['nvars'], dump['ninputs'], dump['noutputs'])
     return m, fs, dump
 
 
@@ -241,8 +262,8 @@ def _t(cond, W):
 class Tmpl:
     """src: program text run on the initial stack `args` (symbolic cells); pre(args) -> assumptions; expect(args, W) -> list of
     (guard, [final stack cells]) cases (guards cover the precondition) ; paused: the same program with pause words inserted"""
-    def __init__(self, name, src, nargs, pre, expect, paused=(), steps=90, vars_expect=None, halt_cases=None, nbytes=0, inpos=None):
-        self.name, self.src, self.nargs, self.pre, self.expect, self.paused, self.steps, self.vars_expect, self.halt_cases, self.nbytes, self.inpos = name, src, nargs, pre, expect, paused, steps, vars_expect, halt_cases, nbytes, inpos
+    def __init__(self, name, src, nargs, pre, expect, paused=(), steps=90, vars_expect=None, halt_cases=None, nbytes=0, inpos=None, outs=None):
+        self.name, self.src, self.nargs, self.pre, self.expect, self.paused, self.steps, self.vars_expect, self.halt_cases, self.nbytes, self.inpos, self.outs = name, src, nargs, pre, expect, paused, steps, vars_expect, halt_cases, nbytes, inpos, outs
 
 
 def _small(*xs):
@@ -334,6 +355,21 @@ def templates(W):
     T.append(Tmpl('read-beyond', 'input s 7 s seek s i-> stack', 0, lambda s: [], lambda s: [(z3.BoolVal(True), [], 'read_beyond')], nbytes=10, inpos=7))
     T.append(Tmpl('seek-skip', 'input s s seek 2 s skip s pos -1 s skip s pos s b-> stack', 1, lambda s: [s[0] >= 0, s[0] <= 7],
                   lambda s: [(s[0] == k, [BVc(k + 2), BVc(k + 1), num(k + 1, 1, False, True)]) for k in range(8)], nbytes=10))
+    def cut(v, bits):
+        return z3.Extract(bits - 1, 0, v) if v.size() > bits else (z3.SignExt(bits - v.size(), v) if v.size() < bits else v)
+    T.append(Tmpl('write-stack', 'output o int32 output p int64 dup o <- stack dup p <- stack 7 o <- stack o len p len', 1, lambda s: [],
+                  lambda s: [(z3.BoolVal(True), [s[0], BVc(2), BVc(1)])], outs=lambda s: [[cut(s[0], 32), z3.BitVecVal(7, 32)], [cut(s[0], 64)]],
+                  paused=['output o int32 output p int64 dup o <- stack pause dup p <- stack 7 o <- stack pause o len p len']))
+    T.append(Tmpl('write-add', 'output o int64 3 o <- stack o +<- stack 10 o +<- stack', 1, lambda s: [],
+                  lambda s: [(z3.BoolVal(True), [])], outs=lambda s: [[z3.BitVecVal(3, 64), 3 + cut(s[0], 64), 13 + cut(s[0], 64)]]))
+    T.append(Tmpl('read-direct', 'input s output o int32 output q uint8 s i-> o s h-> o s !h-> o s B-> q s pos', 0, lambda s: [],
+                  lambda s: [(z3.BoolVal(True), [BVc(9)])], nbytes=10, inpos=9,
+                  outs=lambda s: [[cut(num(0, 4, False, True), 32) if W >= 32 else num(0, 4, False, True), z3.SignExt(16, z3.Concat(by[5], by[4])), z3.SignExt(16, z3.Concat(by[6], by[7]))], [by[8]]],
+                  paused=['input s output o int32 output q uint8 s i-> o pause s h-> o s !h-> o pause s B-> q s pos']))
+    T.append(Tmpl('read-direct-repeated', 'input s output o int32 3 s #!h-> o s pos', 0, lambda s: [], lambda s: [(z3.BoolVal(True), [BVc(6)])], nbytes=10, inpos=6,
+                  outs=lambda s: [[z3.SignExt(16, z3.Concat(by[2 * i], by[2 * i + 1])) for i in range(3)]]))
+    T.append(Tmpl('rewind', 'output o int32 1 o <- stack 2 o <- stack 3 o <- stack 2 o rewind o len', 0, lambda s: [], lambda s: [(z3.BoolVal(True), [BVc(1)])],
+                  outs=lambda s: [[z3.BitVecVal(1, 32)]]))
     T.append(Tmpl('again-halt', 'begin 1- dup 0= if halt then again', 1, lambda s: [s[0] >= 1, s[0] <= 3], lambda s: [(s[0] == n, [BVc(0)], 'user_halt') for n in (1, 2, 3)]))
     return T
 
@@ -390,11 +426,19 @@ def h_prog(name, T, ci):
             obls.append(('[run] variable %d after "%s"' % (k, tm.src), fs0['vars'][k] != v))
     if tm.inpos is not None:
         obls.append(('[run] input position after "%s"' % tm.src, fs0['inpos'][0] != tm.inpos))
+    wouts = tm.outs(args) if tm.outs else []
+    for k, items in enumerate(wouts):
+        obls.append(('[run] output %d holds %d items' % (k, len(items)), fs0['outs'][k]['len'] != len(items)))
+        for i, v in enumerate(items):
+            obls.append(('[run] item %d of output %d has the documented value' % (i, k), fs0['outs'][k]['cells'][i] != v))
     for label, src, mode, m, fs, dump in ctxs:
         if label != 'run':
             diff = [fs['err'] != fs0['err'], fs['depth'] != fs0['depth'], fs['rec'] != fs0['rec']]
             diff += [z3.And(k < fs0['depth'], fs['cells'][k] != fs0['cells'][k]) for k in range(MAXDEPTH)]
             diff += [a != b for a, b in zip(fs['vars'], fs0['vars'])] + [a != b for a, b in zip(fs['inpos'], fs0['inpos'])]
+            for oa, ob_ in zip(fs['outs'], fs0['outs']):
+                diff.append(oa['len'] != ob_['len'])
+                diff += [z3.And(i < ob_['len'], x != y) for i, (x, y) in enumerate(zip(oa['cells'], ob_['cells']))]
             obls.append(('[%s] same final state as one uninterrupted run of "%s"' % (label, tm.src), z3.Or(diff)))
             for o in m.eng.obl:
                 obls.append(('[%s] %s: %s @ %s' % (label, o.kind, o.desc, o.where[:60]), o.cond))
@@ -407,6 +451,13 @@ def h_prog(name, T, ci):
         vals = [ev(a).as_signed_long() for a in args]
         hexin = ''.join('%02x' % ev(b).as_long() for b in inb) if inb else ''
         werr, wstack = E[errname], [ev(c).as_signed_long() for c in cells]
+        wout = []
+        for items in wouts:
+            hx = ''
+            for v in items:
+                vv = ev(v)
+                hx += (vv.as_long() & ((1 << vv.size()) - 1)).to_bytes(vv.size() // 8, 'little').hex()
+            wout.append(hx)
         payload = dict(template=tm.src, initial_stack=vals, input_bytes=hexin, machine_bits=T, expected=dict(err=werr, stack=wstack), runs={})
         bad = None
         for label, src, mode, m, fs, dump in ctxs:
@@ -415,10 +466,11 @@ def h_prog(name, T, ci):
             payload['runs'][label] = dict(program=full, mode=mode, native=out)
             if out.get('status') != 'ok':
                 bad = bad or '%s of "%s": native interpreter %s %s' % (label, full, out.get('status'), out.get('log', ''))
-            elif out.get('err') != werr or out.get('stack') != wstack or (errname == 'none' and not out.get('done')) or (tm.inpos is not None and out.get('inpos') != [tm.inpos]):
-                bad = bad or '%s of "%s"%s: error %s, stack %s, done %s, input position %s; documented: error %s, stack %s%s' % (
-                    label, full, ' on input ' + hexin if hexin else '', out.get('err'), out.get('stack'), out.get('done'), out.get('inpos'), werr, wstack,
-                    ', input position %d' % tm.inpos if tm.inpos is not None else '')
+            elif out.get('err') != werr or out.get('stack') != wstack or (errname == 'none' and not out.get('done')) or (tm.inpos is not None and out.get('inpos') != [tm.inpos]) \
+                    or (wouts and out.get('outputs') != wout):
+                bad = bad or '%s of "%s"%s: error %s, stack %s, done %s, input position %s, outputs %s; documented: error %s, stack %s%s%s' % (
+                    label, full, ' on input ' + hexin if hexin else '', out.get('err'), out.get('stack'), out.get('done'), out.get('inpos'), out.get('outputs'), werr, wstack,
+                    ', input position %d' % tm.inpos if tm.inpos is not None else '', ', outputs %s' % wout if wouts else '')
         if bad:
             return True, bad, payload
         return False, 'native interpreter agrees with the documented result in every mode (%s)' % wstack, payload
